@@ -72,6 +72,9 @@ static inline Dwarf_Die *m_dwarf_diecu(Dwarf_Die *d, Dwarf_Die *r, void *a, void
 }
 static inline void *m_dwarf_cu_getdwarf(void *cu) { return &g_dwarf_obj; }
 static inline void m_throw_libdw(void) { verif_raised = 3; }
+#ifdef C05_CUI
+static inline cu_iterator cu_iterator_copy(const cu_iterator *p) { return *p; }
+#endif
 #ifdef C05_CHILD
 static inline child_iterator child_iterator_copy(const child_iterator *p) { return *p; }
 #endif
